@@ -157,7 +157,7 @@ CHECKS["C06"] = dict(
           dict(name="two-nodes", test="^TestQueryTwoNodes$", quick=dict(n=2000, procs=2, timeout=300), thorough=dict(n=200000, procs=4, timeout=2400)),
           dict(name="big-store", test="^TestBigStore$", kind="plain", quick=dict(n=1, procs=1, timeout=300), thorough=dict(n=1, procs=1, timeout=300)),
           dict(name="disk", test="^TestQueryDisk$", quick=dict(n=2000, procs=2, timeout=300), thorough=dict(n=30000, procs=6, timeout=2400)),
-          dict(name="history-request", test="^TestHistoryRequestInMemory$", quick=dict(n=1200, procs=2, timeout=300), thorough=dict(n=100000, procs=8, timeout=2400)),
+          dict(name="history-request", test="^(TestProbeReplyDropped|TestHistoryRequestInMemory)$", quick=dict(n=1200, procs=2, timeout=300), thorough=dict(n=100000, procs=8, timeout=2400)),
           dict(name="history-request-disk", test="^TestHistoryRequestDisk$", quick=dict(n=400, procs=2, timeout=300), thorough=dict(n=20000, procs=6, timeout=2400))],
 )
 
